@@ -109,6 +109,25 @@ def C19():
                 outside=["windows larger than 3x3", "compressed / 16 bpp input on this path (C08)", "allocator layout UB of transmute_vec"])
 
 
+def C20():
+    jobs = [
+        MirJob("c20_mir_receive_loop", "receive thread closure of the GUI binary (MIR of src/bin/mstsc-rs.rs), with the outcome of RdpClient::read, the readiness test and the stop flag as free symbols: every error outcome leaves the loop; a successful read continues it; the client is locked only when the descriptor is ready and the flag is set; the lock is released on every path before the next wait and before the thread ends; every bitmap event is forwarded exactly once",
+               mirjobs.gui_receive_loop),
+        MirJob("c20_mir_disconnect_mapping", "mcs::Client::read: the disconnect provider ultimatum (opcode 8), and only it, is returned as Err(RdpError(Disconnect)) and is never parsed as data (SMT over the opcode byte)",
+               mirjobs.disconnect_mapping),
+        MirJob("c20_mir_read_propagates", "RdpClient::read: the global channel is consulted only after mcs::Client::read returned Ok (an error of the transport is returned to the receive loop, not swallowed)",
+               mirjobs.must_follow_ok(r"^client::<impl at src/core/client\.rs[^>]*>::read$", r"mcs::Client::<S>::read$", r"global::Client::read::<", "global channel dispatch")),
+    ]
+    return Prop("C20", [], jobs,
+                assumptions=["the environment of one loop iteration (socket readiness, stop flag written by the GUI thread, result of RdpClient::read) is an arbitrary value of its type",
+                             "native replay: launch_rdp_thread is cut text-identically from src/bin/mstsc-rs.rs into a library test; wait_for_fd is stubbed to `true`, which is what select(2) reports for a closed or shut-down descriptor"],
+                text="The sequential kernel of the receive thread decided on the MIR of the GUI binary: one iteration of the loop from an arbitrary environment (symbolic outcome of the read, of select and of the stop flag). This covers every way a session can end as seen by the loop (each Error variant) without enumerating schedules; the thread-level statement follows because the loop body is the only code the thread runs.",
+                note="NOT covered (concurrency and FFI, not expressible in the solver-based engines here): that select(2) on the raw descriptor wakes the thread for PDUs already buffered inside the TLS stream (finding D17 in DESIGN.md, recorded only), timing of events relative to the wait/lock/read steps, fairness between the two threads, the GUI loop's side (sync.store, join).",
+                technique="MIR->SMT symbolic execution (z3, cvc5 cross-check) of one iteration of the receive loop of the GUI binary with a symbolic environment; Datalog/BFS reachability for result propagation",
+                design_ref="DESIGN.md §4 C20 / §7.2",
+                outside=["TLS record buffering vs select(2) on the raw descriptor", "thread interleavings and timing", "main_gui_loop"])
+
+
 RLE32_TOTAL = [("1x1_n3_a", True), ("2x1_n4_b", True), ("1x2_n4_a", True), ("2x2_n6_b", False)]
 DECOMP = [("raw32_2x2_n16", True), ("raw32_2x2_n15", True), ("raw32_2x2_n17", True), ("raw32_1x1_n0", True), ("raw32_0x2_n0", False),
           ("raw16_2x2_n8", True), ("raw16_2x2_n7", True), ("raw16_2x2_n0", False), ("raw16_1x3_n9", False), ("raw16_0x0_n2", True), ("raw16_1x1_n2", True), ("raw16_3x1_n6", True),
@@ -550,9 +569,9 @@ def C18():
                 outside=["records with size-dependent or skippable fields (Component::read/write with MessageOption::Size/SkipField: CBMC does not finish)", "nested containers", "BER/DER (yasna) structures", "GCC conference blocks", "full GCC responses (Version::from itself is decided by c18_mir_version_table; its known finding D14 is listed in known_findings.json)"])
 
 
-PROPS = {"C01": C01, "C02": C02, "C03": C03, "C04": C04, "C05": C05, "C06": C06, "C07": C07, "C08": C08, "C09": C09, "C10": C10, "C11": C11, "C12": C12, "C13": C13, "C14": C14, "C15": C15, "C16": C16, "C17": C17, "C18": C18, "C19": C19}
+PROPS = {"C01": C01, "C02": C02, "C03": C03, "C04": C04, "C05": C05, "C06": C06, "C07": C07, "C08": C08, "C09": C09, "C10": C10, "C11": C11, "C12": C12, "C13": C13, "C14": C14, "C15": C15, "C16": C16, "C17": C17, "C18": C18, "C19": C19, "C20": C20}
 
-MIR_PROPS = ["C01", "C02", "C03", "C04", "C05", "C06", "C07", "C08", "C10", "C11", "C12", "C13", "C14", "C15", "C16", "C17", "C18"]
+MIR_PROPS = ["C01", "C02", "C03", "C04", "C05", "C06", "C07", "C08", "C10", "C11", "C12", "C13", "C14", "C15", "C16", "C17", "C18", "C20"]
 
 _TODO = "not claimed yet: machinery for this property is still being built (see DESIGN.md §4 for the plan)"
 NOT_APPLICABLE = {
@@ -560,7 +579,6 @@ NOT_APPLICABLE = {
     "C10": "fast-path bytes reach the callback only through two nested size-dependent Component parses (ts_fp_update, ts_bitmap_data) on which symbolic execution does not terminate (DESIGN §2 P3g-P3s)",
     "C11": "the claim is about the emitted frame; producing it nests four to_vec(&dyn Message) calls on containers, which CBMC does not finish even for two fields (DESIGN §6 G2); event bodies and gating are decided under C04/C12",
     "C15": "CHALLENGE -> AUTHENTICATE needs read_target_info (size idiom) and a 25-field emitter with three to_vec calls; neither is executable by the solver-based engines here",
-    "C20": "thread interleavings, select(2) and OpenSSL record buffering are concurrency + FFI; Kani does not model them and no sequential kernel implies the property",
 }
 for _p in []:
     NOT_APPLICABLE.setdefault(_p, _TODO)
